@@ -12,7 +12,7 @@ CLAIM = {
          "recent port unless an older cached flow for that traffic is still installed; never the ingress port, never twice; filtered frames nowhere) "
          "and that no switch buffer is left occupied.",
  'note': "Trusted: CPython, z3, symx proxies/shims (SymDict for the MAC table), scripted byte pipes, virtual clock, the oracle in props/C11.py. 'An older cached "
-         "flow is still installed' is read from the switch's flow table (its timeout semantics are C04's subject). Bounded: 1 switch, 3 frames, buffering on/off.",
+         "flow is still installed' is read from the switch's flow table (its timeout semantics are C04's subject). Bounded: 1 switch (O1, O2) or a line of 2-3 switches (O3), 2-3 symbolic frames, buffering on/off.",
 }
 EXPLANATION = ("Real l2_learning.LearningSwitch._handle_PacketIn, of_01.Connection (read/send, handshake handlers), SoftwareSwitch.rx_packet and everything "
                "below it, and the libopenflow codec in both directions executed on symbolic frames; emitted (port, frame) lists compared with the ideal "
@@ -20,7 +20,7 @@ EXPLANATION = ("Real l2_learning.LearningSwitch._handle_PacketIn, of_01.Connecti
 FUNCTIONS = ["pox.forwarding.l2_learning.LearningSwitch._handle_PacketIn/l2_learning._handle_ConnectionUp", "pox.openflow.of_01.Connection + handshake/default handlers",
              "pox.datapaths.switch.SoftwareSwitch.rx_packet/_rx_flow_mod/_rx_packet_out/send_packet_in/OFConnection", "libopenflow_01 pack/unpack (both directions)"]
 BOUNDS = {}
-OUTSIDE = ["more than 2 frames in the quick tier / 3 in the thorough tier, more than 1 switch, topologies with loops", "_flood_delay hold-down (0)", "frames other than the 18-byte / 168-byte test frame shapes (payload bytes concrete)"]
+OUTSIDE = ["more than 2 frames in the quick tier / 3 in the thorough tier (scripted histories: 5), more than 3 switches, topologies with loops (they need the spanning tree: C19)", "_flood_delay hold-down (0)", "frames other than the 18-byte / 168-byte test frame shapes (payload bytes concrete)"]
 ASSUMPTIONS = ["controller and switch exchange bytes through in-memory pipes pumped to quiescence after every frame; virtual clock shared by all modules"]
 
 NPORTS = 3
@@ -147,6 +147,134 @@ def h_frames(ctx, nframes, buffers, sweep, pad=0, script=None):
   ctx.witness('done')
 
 
+class MultiNet:
+  """nsw software switches in a line (a tree, so flooding terminates), each with its own control connection to the one controller running
+  l2_learning; every OpenFlow message is really packed, framed and unpacked.  Ports 1..NPORTS per switch; the last port(s) carry the
+  inter-switch cables, the others are host-facing."""
+  def __init__(self, ctx, nsw, buffers):
+    self.ctx = ctx
+    core = env.get_core()
+    self.of01 = ctx.pox('pox.openflow.of_01'); self.of = ctx.pox('pox.openflow.libopenflow_01'); self.ofp = ctx.pox('pox.openflow')
+    self.swm = ctx.pox('pox.datapaths.switch'); self.iow = ctx.pox('pox.lib.ioworker'); self.l2 = ctx.pox('pox.forwarding.l2_learning')
+    self.ftm = ctx.pox('pox.openflow.flow_table'); self.pkt = ctx.pox('pox.lib.packet')
+    self.clock = env.Clock(1000)
+    for m in (self.of01, self.swm, self.ftm, self.l2): m.time = self.clock
+    self.of01.deferredSender = Dummy()
+    self.of.generate_xid = self.of.xid_generator()
+    self.of01.Connection.ID = 0
+    nexus = self.ofp.OpenFlowNexus()
+    core.components['openflow'] = nexus
+    core.components['OpenFlowConnectionArbiter'] = self.ofp.OpenFlowConnectionArbiter(default=False)
+    self.l2._flood_delay = 0
+    self.l2.l2_learning(False)
+    self.nexus = nexus
+    self.nodes = []; self.outs = []; self.errors = []
+    nexus.addListenerByName('ErrorIn', lambda e: self.errors.append(e))
+    for i in range(nsw):
+      sw = self.swm.SoftwareSwitch(dpid=7 + i, ports=NPORTS, max_buffers=buffers, miss_send_len=128)
+      w = self.iow.IOWorker(); w.socket = env.FakeSocket(eof=False)
+      sw.set_connection(self.swm.OFConnection(w))
+      sock = env.FakeSocket(eof=False)
+      con = self.of01.Connection(sock)
+      sw.addListenerByName('DpPacketOut', lambda e, i=i: self.outs.append((i, e.port.port_no, e.packet.pack())))
+      self.nodes.append((sw, w, sock, con))
+    # cables: s0.p3 - s1.p3 for two switches; s0.p3 - s1.p2, s1.p3 - s2.p3 for three
+    self.links = {}
+    if nsw == 2: pairs = [((0, 3), (1, 3))]
+    else: pairs = [((0, 3), (1, 2)), ((1, 3), (2, 3))]
+    for a, b in pairs: self.links[a] = b; self.links[b] = a
+    self.host_ports = [(i, p) for i in range(nsw) for p in range(1, NPORTS + 1) if (i, p) not in self.links]
+    self.pump()
+
+  def pump(self):
+    for _ in range(80):
+      moved = False
+      for (sw, w, sock, con) in self.nodes:
+        if sock.sent:
+          chunks = list(sock.sent); del sock.sent[:]
+          for ch in chunks: w._push_receive_data(ch); moved = True
+        if len(w.send_buf):
+          data = w.send_buf; w.send_buf = b''
+          sock.feed(data); moved = True
+          while sock.chunks:
+            if con.read() is False: raise RuntimeError("controller dropped the connection")
+      if not moved: return
+    raise RuntimeError("control channels did not quiesce")
+
+
+def h_network(ctx, nsw, nframes, buffers):
+  """frames enter at symbolic host ports of a line of switches; every hop is judged by the ideal-bridge oracle of that switch (its own
+  learning history) and the journey as a whole by end-to-end clauses"""
+  net = MultiNet(ctx, nsw, buffers)
+  of = net.of
+  for i, (sw, w, sock, con) in enumerate(net.nodes):
+    ctx.check('handshake of switch %d completed' % i, con.connect_time is not None and net.nexus.getConnection(7 + i) is con)
+  hist = {i: [] for i in range(nsw)}          # per switch: (source mac, port) in arrival order
+  sightings = []                              # (source mac, host port) of every injected frame
+  for f in range(nframes):
+    src = ctx.bytes('src%d' % f, 6); dst = ctx.bytes('dst%d' % f, 6)
+    ctx.assume((src[0] & 1) == 0)
+    hp = net.host_ports[int(ctx.int('ingress%d' % f, 0, len(net.host_ports) - 1))]
+    raw = env.tobytes(ctx, list(dst) + list(src) + [0x08, 0x01, f, 0xaa, 0xbb, 0xcc])
+    filtered = ctx.And(dst[0] == 1, dst[1] == 0x80, dst[2] == 0xc2, dst[3] == 0, dst[4] == 0, dst[5] <= 0x0f)
+    queue = [(hp[0], hp[1])]; delivered = []; hops = 0; cached_hit = False; all_flood = True
+    sightings.append((list(src), hp))
+    while queue:
+      s_, inport = queue.pop(0); hops += 1
+      if hops > 2 * nsw + 2: break
+      sw = net.nodes[s_][0]
+      pm = of.ofp_match.from_packet(net.pkt.ethernet(raw), inport, spec_frags=True)
+      cached = [e for e in sw.table.entries if e.match.matches_with_wildcards(pm, consider_other_wildcards=False)]
+      del net.outs[:]
+      sw.rx_packet(net.pkt.ethernet(raw), inport)
+      net.pump()
+      got = list(net.outs)
+      tag = 'frame %d at switch %d: ' % (f, s_)
+      ctx.check(tag + 'only the switch that received the frame emits it', all(x[0] == s_ for x in got))
+      ports = [p for _, p, _ in got]
+      ctx.check(tag + 'never out of the ingress port', all(p != inport for p in ports))
+      ctx.check(tag + 'never twice on a port', len(ports) == len(set(ports)))
+      for _, p, b in got: ctx.check(tag + 'frame delivered unmodified', ctx.Eq(b, raw))
+      others = [p for p in range(1, NPORTS + 1) if p != inport]
+      hist[s_].append((list(src), inport))
+      where = [port for (m, port) in hist[s_] if bool(ctx.Eq(env.tobytes(ctx, m), dst))]
+      if cached:
+        ctx.witness('cached-flow'); cached_hit = True; all_flood = False
+        outp = [a.port for a in cached[0].actions if isinstance(a, of.ofp_action_output)]
+        ctx.check(tag + 'cached flow decides', sorted(ports) == sorted(int(x) for x in outp if int(x) != inport))
+      elif bool(filtered):
+        ctx.witness('filtered'); all_flood = False
+        ctx.check(tag + 'link-local frame is not forwarded', ports == [])
+      elif bool((dst[0] & 1) == 1) or not where:
+        ctx.witness('flood')
+        ctx.check(tag + 'unknown / broadcast / multicast goes to every other port', sorted(ports) == others)
+      else:
+        ctx.witness('unicast-known'); all_flood = False
+        latest = int(where[-1])
+        ctx.check(tag + 'known unicast goes exactly to the most recent port (nowhere if that is the ingress)', ports == ([latest] if latest != inport else []))
+      for p in ports:
+        if (s_, p) in net.links:
+          peer = net.links[(s_, p)]; queue.append(peer)
+          if peer[0] != s_: ctx.witness('crossed-a-link')
+        else: delivered.append((s_, p))
+    tag = 'frame %d end to end: ' % f
+    ctx.check(tag + 'the journey ends (no forwarding loop)', not queue)
+    ctx.check(tag + 'no host port receives the frame twice, the sending host never', len(delivered) == len(set(delivered)) and hp not in delivered)
+    if all_flood and not cached_hit:
+      ctx.check(tag + 'a frame every switch floods reaches every other host port of the network', sorted(delivered) == sorted(x for x in net.host_ports if x != hp))
+    seen_at = [loc for (m, loc) in sightings[:-1] if bool(ctx.Eq(env.tobytes(ctx, m), dst))]
+    if seen_at and not cached_hit and not bool(filtered) and bool((dst[0] & 1) == 0) and all(loc == seen_at[0] for loc in seen_at) and seen_at[0] != hp \
+       and not any(bool(ctx.Eq(env.tobytes(ctx, m), src)) and loc != hp for (m, loc) in sightings[:-1]) \
+       and not any(bool(ctx.Eq(env.tobytes(ctx, m), dst)) and loc == hp for (m, loc) in sightings):
+      # the destination has only ever been seen at one host port, the sender has not moved either: the frame arrives there, exactly once
+      ctx.witness('end-to-end-unicast')
+      ctx.check(tag + 'a frame to a host that never moved is delivered to that host', delivered.count(seen_at[0]) == 1)
+    ctx.check(tag + 'no OpenFlow error was raised', not net.errors)
+    for i, (sw, w, sock, con) in enumerate(net.nodes):
+      ctx.check(tag + 'no packet buffer left occupied on switch %d' % i, all(x is None for x in sw._packet_buffer))
+  ctx.witness('done')
+
+
 def h_delayed(ctx, buffers, nheld):
   """Several packet-ins outstanding at once (a control channel slower than the data plane): three hosts are learned in lock step, then
   `nheld` frames of different conversations miss the table back to back before any answer of the controller reaches the switch; the answers
@@ -190,7 +318,10 @@ def obligations(tier):
   BOUNDS[tier] = dict(switches=1, ports=NPORTS, frames=[c['nframes'] for c in cases], macs="48-bit symbolic source/destination per frame (all aliasing patterns)",
                       ingress="symbolic port", gaps="0..45 s symbolic with an expiry sweep before each frame (sweep cases)", buffering=sorted({c['buffers'] for c in cases}), frame_lengths=[18, 168], miss_send_len=128)
   dl = [dict(buffers=b, nheld=k) for b in (0, 1, 2, 3) for k in ((2, 3) if thorough else (2,))]
-  return [Obligation('O2_outstanding', h_delayed, dl, witnesses=('done',), max_decisions=40000,
+  nw = [dict(nsw=2, nframes=2, buffers=2), dict(nsw=2, nframes=2, buffers=0)] + ([dict(nsw=3, nframes=2, buffers=1), dict(nsw=2, nframes=3, buffers=2)] if thorough else [])
+  return [Obligation('O3_network', h_network, nw, witnesses=('done', 'flood', 'unicast-known', 'filtered', 'crossed-a-link', 'end-to-end-unicast'), max_decisions=60000,
+                     desc='a line of 2 (3) switches under one controller: every hop == the ideal bridge of that switch; end to end: no loop, no duplicate, floods reach every host port, a known host is reached'),
+          Obligation('O2_outstanding', h_delayed, dl, witnesses=('done',), max_decisions=40000,
                      desc='several packet-ins outstanding at once (slow control channel), answered in order: each frame to its own destination, buffers released'),
           Obligation('O1_frames', h_frames, cases, witnesses=('done', 'flood', 'unicast-known', 'filtered', 'cached-flow'), max_decisions=40000,
                      desc='frames emitted per port == ideal learning bridge; buffers never leak')]
